@@ -33,6 +33,13 @@ def listRemove {α : Type} [DecidableEq α] (x : α) : List α → Except Err (L
       | .ok l' => .ok (a :: l')
       | .error e => .error e
 
+/-- `l[k]` for an index `k ≥ 0` (a loop index of `range(…)`): `IndexError` iff `k ≥ len(l)`
+(`Err.keyError` is the model's tag for KeyError / IndexError on a lookup) -/
+def listIndex {α : Type} (l : List α) (k : Nat) : Except Err α :=
+  match l[k]? with
+  | some x => .ok x
+  | none => .error .keyError
+
 /-- `Network(branches, node_zero_label)`: the dataclass constructor, which runs
 `__post_init__` (passed in: it is the generated `Gen.Core.Network.post_init`) -/
 def construct (postInit : Net L K → Except Err Unit) (branches : List (Branch L K)) (zero : L) :
